@@ -386,9 +386,21 @@ def _build_and_run(tier, seed, profiles):
     stats = {}
     flags = {}
     op_counts = {}
+    first_text = None
+    first_prof = None
     for prof, path in ops.items():
         with open(path) as f:
-            op_lines = f.read().splitlines()
+            text = f.read()
+        if first_text is not None and text == first_text:
+            # identical trace: the driver's verdict on the first profile applies verbatim
+            mismatches[prof] = mismatches[first_prof]
+            stats[prof] = stats[first_prof] + " (trace identical to %s)" % first_prof
+            flags[prof] = flags[first_prof]
+            op_counts[prof] = op_counts[first_prof]
+            continue
+        if first_text is None:
+            first_text, first_prof = text, prof
+        op_lines = text.splitlines()
         flags[prof] = [l for l in op_lines if not l.startswith("op ")][:500]
         lines = proto + ["profile chk=%d" % (1 if prof == "dev" else 0)] + [l for l in op_lines if l.startswith("op ")] + ["stats"]
         out = run_driver(lines)
